@@ -563,3 +563,16 @@ pub fn gen_edge_cfg(t: &mut Tape) -> (Cfg, bool) {
     }
     (c, edge)
 }
+
+/// A maximum line length shorter than a header line destroys the construct markers themselves
+/// (delta truncates every input line before parsing it); keep it above every non-hunk line.
+pub fn keep_headers_intact(cfg: &mut Cfg, lines: &[crate::gen::diff::InLine]) {
+    if let Some(m) = cfg.get("max-line-length").and_then(|v| v.parse::<usize>().ok()) {
+        if m > 0 {
+            let longest = lines.iter().filter(|l| !matches!(l.role, crate::gen::diff::Role::Hunk { .. })).map(|l| l.text.len()).max().unwrap_or(0);
+            if longest >= m {
+                cfg.set("max-line-length", &(longest + 1).to_string());
+            }
+        }
+    }
+}
